@@ -208,3 +208,56 @@ void cli_view(struct cli_view *v)
 	v->dns = (conn == CONN_DNS_NULL);
 	v->out_data = (const unsigned char *)outpkt.data; v->in_data = (const unsigned char *)inpkt.data;
 }
+
+/* ---- entry points for the handshake harness (h_handshake.c) ---- */
+void cli_prepare_handshake(const char *topdom, const char *pass, int qtype, char downenc_c, int lazy, int maxlen)
+{
+	struct sockaddr_in *a = (struct sockaddr_in *)&nameserv;
+	client_init();
+	strncpy(cli_topdomain_buf, topdom, sizeof(cli_topdomain_buf) - 1);
+	topdomain = cli_topdomain_buf;
+	{
+		/* iodine.c keeps the password in a zero-filled 33-byte buffer */
+		static char pwbuf[33];
+		memset(pwbuf, 0, sizeof(pwbuf));
+		strncpy(pwbuf, pass, 32);
+		client_set_password(pwbuf);
+	}
+	do_qtype = qtype ? qtype : T_UNSET;
+	downenc = downenc_c;
+	dataenc = &base32_ops;
+	lazymode = lazy;
+	hostname_maxlen = maxlen;
+	selecttimeout = 4;
+	conn = CONN_DNS_NULL;
+	userid = 0;
+	userid_char = '0';
+	userid_char2 = '0';
+	memset(&nameserv, 0, sizeof(nameserv));
+	a->sin_family = AF_INET;
+	a->sin_port = htons(53);
+	a->sin_addr.s_addr = inet_addr("192.0.2.53");
+	nameserv_len = sizeof(struct sockaddr_in);
+	send_query_sendcnt = -1;
+	send_query_recvcnt = 0;
+	outpkt.sentlen = 0;
+	outpkt.offset = 0;
+}
+
+void cli_report(char *buf, size_t n)
+{
+	snprintf(buf, n, "qtype=%d up=%s down=%c lazy=%d conn=%d st=%d edns=%d uid=%d", do_qtype, dataenc->name,
+		 downenc == ' ' ? '_' : downenc, lazymode, conn == CONN_DNS_NULL, selecttimeout, dnsc_use_edns0, userid);
+}
+
+void cli_start_tunnel(void)
+{
+	lastdownstreamtime = time(NULL);
+	send_query_sendcnt = 0;
+	running = 1;
+}
+
+int cli_userid(void)
+{
+	return userid;
+}
